@@ -82,7 +82,7 @@ bool unitRangeCornerCaseHandle(uint32_t unitsToSplit, uint32_t beginNode,
     }
     // deal with remainder units; they get nothing
     for (uint32_t i = totalNodes; i < unitsToSplit; i++) {
-      returnRanges[i + 1] = totalNodes;
+      returnRanges[i + 1] = endNode;
     }
 
     return true;
